@@ -62,6 +62,10 @@ Section Term.
   Variable U : list url.
   Hypothesis starts_in_U : forall u, In u starts -> In u U.
   Hypothesis links_in_U : forall u code links l, site u = Doc code links -> In l links -> In (fst l) U.
+  (* ... and no page has more than Lmax links (a visit commits its children in batches: the number of
+     transactions of one visit grows with the number of links) *)
+  Variable Lmax : nat.
+  Hypothesis links_len : forall u code links, site u = Doc code links -> (length links <= Lmax)%nat.
 
   Notation scope := (in_scope (sp0 host starts)).
   Notation plan := (Engine.plan site scope maxredir).
@@ -77,7 +81,7 @@ Section Term.
 
   Lemma plan_adds_U sc p t k i : In (AAddMany k) (Engine.plan site sc maxredir p t) -> In i k -> In (ri_url i) U.
   Proof.
-    intros H Hi. destruct (plan_adds_in _ _ _ _ _ _ H) as [f [code [links [S ->]]]].
+    intros H Hi. destruct (plan_adds_in _ _ _ _ _ _ H) as [f [code [links [S Ik]]]]. apply Ik in Hi.
     unfold children in Hi. apply filter_In in Hi. destruct Hi as [Hi _]. apply in_map_iff in Hi.
     destruct Hi as [l [<- Hl]]. cbn. eapply links_in_U; eauto.
   Qed.
@@ -113,7 +117,30 @@ Section Term.
     now apply (reach_Inv site host in_scope maxredir starts conc scope_ext).
   Qed.
 
-  Definition W : nat := (2 * maxredir + 4 + 2)%nat.
+  Lemma children_length sc p f links : (length (children sc p f links) <= length links)%nat.
+  Proof.
+    unfold children. rewrite <- (map_length (child_info p) links).
+    generalize (map (child_info p) links). intros l. induction l as [|x l IH]; cbn; [lia|].
+    destruct (sc false f x 0); cbn; lia.
+  Qed.
+
+  Lemma fetch_length sc fuel : forall p tries u ini,
+    (length (fetch site sc fuel p tries u ini) <= 2 * fuel + 4 + Lmax)%nat.
+  Proof.
+    induction fuel as [|f IH]; intros p tries u ini; cbn [fetch]; destruct (site u) as [code links|code|code|code [t|]] eqn:Su; cbn [length].
+    all: try (rewrite app_length; pose proof (flush_length (children sc p u links));
+              pose proof (children_length sc p u links); pose proof (links_len u code links Su); cbn [length]; lia).
+    all: try lia.
+    destruct (sc true t p tries); [specialize (IH p tries t false)|cbn]; lia.
+  Qed.
+
+  Definition plan_bound : nat := (2 * maxredir + 4 + Lmax)%nat.
+  Lemma plan_length p tries : (length (plan p tries) <= plan_bound)%nat.
+  Proof.
+    unfold Engine.plan, plan_bound. destruct (scope false (ri_url p) p tries); [apply fetch_length | cbn; lia].
+  Qed.
+
+  Definition W : nat := (plan_bound + 2)%nat.
   Definition item_w (it : item) : nat := (length (it_todo it) + b2n (negb (it_started it)))%nat.
   Definition items_w (its : list item) : nat := fold_right (fun it n => (item_w it + n)%nat) 0%nat its.
   Definition room (s : state) : nat := (length U - length (st_tbl s))%nat.
@@ -160,7 +187,7 @@ Section Term.
       assert (Lu : length (upd (r_url r) (set_status InProgress) (st_tbl s)) = length (st_tbl s)) by (unfold upd; apply map_length).
       rewrite Lu, items_w_app, items_w_cons, items_w_nil.
       rewrite (plan_span site host in_scope maxredir starts scope_ext s (r_info r) (r_tries r) IH M).
-      pose proof (plan_length site host in_scope maxredir starts scope_ext (r_info r) (r_tries r)) as PL. unfold plan_bound in PL.
+      pose proof (plan_length (r_info r) (r_tries r)) as PL.
       unfold item_w. cbn [it_todo it_started negb b2n]. unfold W.
       generalize dependent (cnt Todo (upd (r_url r) (set_status InProgress) (st_tbl s))). intros c' Cn.
       generalize dependent (length (plan (r_info r) (r_tries r))). intros pl PL.
